@@ -98,6 +98,12 @@ pub fn cap_pending(job: u64) -> Option<(u8, u64)> {
     if v == 0 || CAP_JOB.load(Relaxed) != job { None } else { Some((CAP_TAG.load(Relaxed) as u8, v)) }
 }
 
+/// Like `cap_pending` for any job: (kind, refused size, job number).
+pub fn cap_pending_any() -> Option<(u8, u64, u64)> {
+    let v = CAP_HIT.load(std::sync::atomic::Ordering::Acquire);
+    if v == 0 { None } else { Some((CAP_TAG.load(Relaxed) as u8, v, CAP_JOB.load(Relaxed))) }
+}
+
 /// Forget a cap event (after the supervising thread has taken note of it).
 pub fn clear_cap() {
     CAP_HIT.store(0, std::sync::atomic::Ordering::Release);
